@@ -237,6 +237,14 @@ func (l *ledgers) onDoChangeConfig(ni *nodeInc, ld *leader, c Config) {
 			if t, ok := o.obs.terms[last]; ok && err == nil && t == lt {
 				held = true
 			}
+			// the observation is that of the node's last quiescent moment; a node that was paused
+			// right after answering has acknowledged more than was observed: the ack ledger
+			// (updated when the append handler returns) is current
+			// (its highest ever: a suffix dropped later under a newer leader does not undo that the
+			// node had caught up when the round completed)
+			if o.ackedMax >= last {
+				held = true
+			}
 			if !held {
 				tt := o.obs.terms[last]
 				run.violate("C11", "promoted_without_catching_up", "promoted_log_behind", "%v promotes node %d after a round to index %d (leader's term there: %d, err %v), but %v holds (%d,%d] snapshot %d with term %d at that index", ni, id, last, lt, err, o, o.obs.prev, o.obs.last, o.obs.snapIndex, tt)
@@ -337,6 +345,12 @@ func (l *ledgers) onServeReturned2(ni *nodeInc) {
 	} else if !ni.stopping {
 		// a node stopped serving without being asked to and without being removed
 		err := ni.serveErr
+		if es := errOrNil(err).Error(); strings.Contains(es, "snapshot") || strings.Contains(es, "Log.") {
+			// no storage error was injected, yet the node found its own snapshots or log unusable:
+			// that is what C09 rules out (compaction and retention never leave a node unable to
+			// restart or to bring a follower up to date)
+			run.violate("C09", "storage_unusable", "storage_unusable:"+errClass(errOrNil(err)), "%v gave up with a storage error although none was injected: %v", ni, err)
+		}
 		run.violate("C15", "node_stopped_itself", "serve_returned:"+errClass(errOrNil(err)), "%v stopped serving on its own: %v", ni, err)
 	}
 	// every task the node accepted is complete when Serve returns
